@@ -555,7 +555,7 @@ class _Gen(object):
                     return 'PC(%s).mm(%s)' % (e, r.choice(['a', 'b', '1', '2', '0']))
                 return r.choice(['h(*[%s])', 'hp(*[%s])', 'h2(*[%s, 2])', 'h2(*(%s,), v=2)', 'hp(*iter([%s]))', 'h2(%s, *[1])',
                                  "h2(%s, **{'v': 2})", 'o.m(*[%s])', 'max(*[%s, 1])', 'hp(*(%s,))']) % e
-            return r.choice(['h(%s)', 'h2(%s)', 'h2(%s, v=2)', 'hp(%s)']) % self.iexpr(depth - 1)
+            return r.choice(['h(%s)', 'h2(%s)', 'h2(%s, v=2)', 'hp(%s)', 'hp(%s, v=1)']) % self.iexpr(depth - 1)
         if c < 0.90:
             self.features.add('method'); self.uses_obj = True
             return 'o.m(%s)' % self.iexpr(depth - 1)
@@ -703,6 +703,20 @@ class _Gen(object):
             tgt = priv if r.random() < 0.8 else r.choice(['i', 'j', v])
             if form == 0:
                 self.emit(ind, 'for %s in range(%s):' % (tgt, r.choice(['2', '3', 'a % 3', 'len(l)', '0'])))
+            elif form == 1 and self.loopdepth == 0 and r.random() < 0.3:
+                # worklist idiom: the body changes the length of the list being iterated (bounded growth / shrinking);
+                # appended items must be visited, Python's list-iterator protocol followed
+                F.add('for_over_mutated_list')
+                tgt = 'kw%d' % self.slot()      # loop-private target (re-used targets fall into a known-finding class)
+                self.emit(ind, 'for %s in l:' % tgt)
+                self.emit(ind + '    ', 'tr(%d, %s, len(l))' % (self.slot(), tgt))
+                if r.random() < 0.6:
+                    self.emit(ind + '    ', 'if len(l) < 5:')
+                    self.emit(ind + '        ', 'l.append(%s + 1)' % tgt)
+                else:
+                    self.emit(ind + '    ', 'if len(l) > 1 and %s %% 2 == 0:' % tgt)
+                    self.emit(ind + '        ', 'l.pop()')
+                return
             elif form == 1:
                 self.emit(ind, 'for %s in l:' % tgt)
             elif form == 2:
@@ -761,7 +775,12 @@ class _Gen(object):
             F.add('nested_def')
             self.nfn += 1
             g = 'g%d' % self.nfn
-            p = r.choice(['', 'p', 'p, q=1'])
+            p = r.choice(['', 'p', 'p, q=1', 'p, q=1'])
+            if p == 'p, q=1' and r.random() < 0.5:
+                # default values are evaluated in the ENCLOSING function when the def runs: calls in them must be
+                # lowered there (positional and keyword-only defaults)
+                F.add('call_in_default')
+                p = r.choice(['p, q=h(%s)', 'p, q=tr(%d, %%s)' % self.slot(), 'p, *, q=h2(%s)', 'p, q=hp(%s)']) % r.choice(self.ivars)
             self.emit(ind, 'def %s(%s):' % (g, p))
             nlr = r.random()
             if nlr < 0.2:
@@ -1136,6 +1155,53 @@ def escape_scenario_programs():
             L += ['    ' + l for l in post.split('\n')] + ['    return tr(0, r)']
             yield Program(RANDOM_PRELUDE + '\n'.join(L) + '\n', [(1, 2, 3), (0, -1, 2)], {'binding', 'escape', name, wrap}, 'binding',
                           decisions=[[0, 0, 0], [1, 0, 0], [2, 1, 0]], meta={'scenario': name})
+
+
+def conditionally_bound_programs():
+    """A variable bound only on some static paths before a loop (or branch) that conditionally rebinds it, read afterwards:
+    on inputs where it IS bound at run time its value must survive (no placeholder may overwrite it); where it is not,
+    both versions raise a NameError."""
+    binders = [('if', ['if d():', '    v = [tr(1, a)]']),
+               ('if_else_del', ['v = [a]', 'if d():', '    del v']),
+               ('try', ['try:', '    if d():', '        raise E1(tr(1))', '    v = [tr(2, a)]', 'except E1:', '    pass']),
+               ('for', ['for k in n():', '    v = [tr(1, k)]'])]
+    users = [('for_cond', ['for i in n():', '    if d():', '        v = [tr(3, i)]']),
+             ('while_cond', ['while d():', '    if d():', '        v = [tr(3, b)]']),
+             ('for_rmw', ['for i in n():', '    v = v + [tr(3, i)]']),
+             ('if_cond', ['if d():', '    if d():', '        v = [tr(3, c)]']),
+             ('with_cond', ['with cm(4):', '    if d():', '        v = [tr(3, c)]'])]
+    for bn, bl in binders:
+        for un, ul in users:
+            L = ['def f(a, b, c):'] + ['    ' + x for x in bl + ul] + ['    return tr(0, v)']
+            yield Program(PRELUDE + '\n'.join(L) + '\n', [(1, 2, 3)], {'binding', 'conditionally_bound', bn, un}, 'binding',
+                          decisions=[[1, 0, 0, 0], [1, 1, 1, 0], [0, 1, 1, 1], [1, 2, 1, 0, 1], [0, 0, 0, 0], [2, 1, 0, 1, 1]],
+                          meta={'scenario': 'conditionally_bound:%s:%s' % (bn, un)})
+
+
+def list_iteration_programs():
+    """for loops directly over a list / tuple argument whose body changes the length of that list (worklist idiom,
+    pruning), alone and with break / an early return / an enclosing branch: Python's list-iterator protocol must be
+    followed (appended items are visited; a shrinking list ends the loop early)."""
+    bodies = [('append_bounded', ['tr(1, q, len(l))', 'if len(l) < 5:', '    l.append(q + 1)']),
+              ('pop_on_even', ['tr(1, q, len(l))', 'if len(l) > 1 and q % 2 == 0:', '    l.pop()']),
+              ('insert_front_once', ['tr(1, q, len(l))', 'if len(l) < 4:', '    l.insert(0, q + 10)']),
+              ('append_then_break', ['tr(1, q, len(l))', 'if len(l) < 4:', '    l.append(q + 1)', 'if d():', '    break']),
+              ('append_then_return', ['tr(1, q, len(l))', 'if len(l) < 4:', '    l.append(q + 1)', 'if d():', '    return tr(2, q)']),
+              ('del_slice', ['tr(1, q, len(l))', 'if len(l) > 2:', '    del l[-1]'])]
+    for name, body in bodies:
+        for ctx in ('plain', 'if', 'while'):
+            L = ['def f(a, b, c, l):', '    x = a']
+            ind = '    '
+            if ctx == 'if':
+                L.append(ind + 'if d():'); ind += '    '
+            elif ctx == 'while':
+                L.append(ind + 'while d():'); ind += '    '
+            L.append(ind + 'for q in l:')
+            L += [ind + '    ' + b for b in body]
+            L += ['    return tr(0, x, len(l))']
+            yield Program(PRELUDE + '\n'.join(L) + '\n', [(1, 2, 3, [1, 2]), (0, 0, 0, [2, 4, 6]), (1, 1, 1, [])],
+                          {'binding', 'list_iteration', name, ctx}, 'binding',
+                          decisions=[[1, 0, 0, 0], [1, 1, 0, 0], [0, 0, 0, 0], [1, 0, 1, 0]], meta={'scenario': 'list_iteration:' + name})
 
 
 def binding_scenario_programs():
